@@ -4,6 +4,9 @@ import Dicom.Spec.Table910
 import Dicom.Model.Framing
 import Dicom.Model.Dimse
 import Dicom.Model.Limits
+import Dicom.Model.CmdSet
+import Dicom.Spec.CmdSetGrammar
+import Dicom.Spec.CommandFields
 /-! Line-protocol driver: one op per input line, one output line per op.
 Imports models and specifications only (never Generated or Props), core Lean only. -/
 open Dicom
@@ -88,6 +91,29 @@ def decTrace (noDs : Bool) : Dec → List (List Frag) → List String
     | none => ["error"]
     | some d' => if d'.receiving then "recv" :: decTrace noDs d' ps else ["done " ++ decText d']
 
+/-! ### C08 ops -/
+def parseElem (s : String) : Option Elem :=
+  match s.splitOn ":" with
+  | [t, v] => match t.toNat?, hexToBytes v with
+    | some t, some v => some ⟨t, v⟩
+    | _, _ => none
+  | _ => none
+
+def parseMsgOp (s : String) : Option MsgOp :=
+  match s.splitOn ":" with
+  | ["F", t, v] => match t.toNat?, hexToBytes v with
+    | some t, some v => some (.setField t v)
+    | _, _ => none
+  | ["D", "none"] => some (.setData none)
+  | ["D", v] => (hexToBytes v).map fun b => .setData (some b)
+  | ["S", pc, mx] => match pc.toNat?, mx.toNat? with
+    | some pc, some mx => some (.send pc mx)
+    | _, _ => none
+  | _ => none
+
+def cmdViewText (v : Spec.CmdView) : String :=
+  s!"ok gl={v.groupLength} follow={v.following} asc={v.ascending} g0={v.allGroup0} cf={v.commandField.getD 99999} ds={v.dataSetType.getD 99999}"
+
 def step (line : String) : String :=
   match line.trimAscii.toString.splitOn " " with
   | ["ping"] => "pong"
@@ -134,6 +160,26 @@ def step (line : String) : String :=
     match own.toNat?, peer.toNat? with
     | some own, some peer => s!"acc={acceptorLimit own peer} ann={acceptorAnnounce own peer} req={requesterLimit own peer}"
     | _, _ => "bad-op"
+  | ["cf-of", name] =>
+    match Spec.commandFieldTable.find? (fun e => e.2 = name) with
+    | some e => toString e.1
+    | none => "unknown"
+  | ["spec-cmd", hex] =>
+    match hexToBytes hex with
+    | some bs => match Spec.readCmd bs with
+      | some v => cmdViewText v
+      | none => "malformed"
+    | none => "bad-op"
+  | "msg-run" :: data0 :: rest =>
+    -- msg-run <initial data: none|hex> <elems in insertion order ...> -- <ops ...>
+    let elemToks := rest.takeWhile (· ≠ "--")
+    let opToks := (rest.dropWhile (· ≠ "--")).drop 1
+    match elemToks.mapM parseElem, opToks.mapM parseMsgOp,
+          (if data0 = "none" then some none else (hexToBytes data0).map some) with
+    | some es, some ops, some d0 =>
+      let r := (Msg.run { elems := es, data := d0 } ops).2
+      " | ".intercalate (r.map fun s => s!"cmd={bytesToHex s.cmd} data={" ".intercalate (s.dataFrags.map fragText)}")
+    | _, _, _ => "bad-op"
   | _ => "bad-op"
 
 partial def loop (h : IO.FS.Stream) (out : IO.FS.Stream) : IO Unit := do
